@@ -10,7 +10,7 @@ def run(tier, seed):
     rep = Report("C04", tier, seed, "proof", "./vf check C04 --tier " + tier)
     from contracts import layout
 
-    specs = layout.specs(tier) + [("contracts.tables", "make_table", ("layout",)), ("contracts.cstructfns", "make_fn", ("make_array",)),
+    specs = layout.specs(tier) + [("contracts.tables", "make_table", ("layout",)), ("contracts.cstructfns", "make_fn", ("make_array",)), ("contracts.cstructfns", "make_fn", ("make_array_identity",)),
                                   ("contracts.cstructfns", "make_fn", ("make_pointer",)), ("contracts.cstructfns", "make_fn", ("sizeof",)),
                                   ("contracts.cstructfns", "make_fn", ("make_type",))]
     rep.add_case_results(run_cases(specs), "T1")
